@@ -796,6 +796,37 @@ theorem c16_api_honest (hot cold : List (List Call)) (hotArr coldArr : List (Nat
           exact ⟨rep, l, t', rfl⟩
         | _ => rw [hr] at hok; simp [ShardRes.isOk] at hok
 
+/-- `makeProtoDocs` is a map over the ID list: whatever the document stream does - ends early, errors, is cut by a
+deadline - the response has exactly one slot per ID -/
+theorem c16_protodocs_length (n : Nat) (ds : List Doc) : (protoDocs n ds).length = n := by
+  induction n generalizing ds with
+  | zero => simp [protoDocs]
+  | succ n ih => cases ds <;> simp [protoDocs, ih]
+
+/-- **C16 (the response lists every returned ID).**  For every outcome of `Search` + fetch - including a request
+context that is done after any number `k` of document reads (`searchAndFetchC`, e.g. the proxy's SearchTimeout firing
+during the fetch phase) - a response of the Search handler carries as many Documents as IDs: the IDs (which travel only
+in `Docs`) are never cut short; what could not be read is an empty document. -/
+theorem c16_api_lists_every_id (hot cold : List (Nat × ShardRes)) (offset size : Nat) (rev : Bool) (hint : Nat)
+    (order : List Nat) (behav : Nat → Option (List Ev)) (cancelAfter : Option Nat)
+    (ids : List ProxySearch.ID) (docs : List Nat) (p : Bool) (total : Nat)
+    (h : api (searchAndFetchC hot cold offset size rev hint true order behav cancelAfter) = .resp ids docs p total) :
+    docs.length = ids.length := by
+  cases hf : searchAndFetchC hot cold offset size rev hint true order behav cancelAfter with
+  | err k => rw [hf] at h; cases k <;> simp [api] at h
+  | panic => rw [hf] at h; simp [api] at h
+  | fetchErr => rw [hf] at h; simp [api] at h
+  | ok ids' t e p' c docs' =>
+    rw [hf] at h
+    simp only [api] at h
+    split at h
+    · injection h with h1 h2 _ _
+      rw [← h1, ← h2]; simp [c16_protodocs_length]
+    · split at h
+      · cases h
+      · injection h with h1 h2 _ _
+        rw [← h1, ← h2]; simp [c16_protodocs_length]
+
 open SV.ProxyApi in
 /-- **C16 (Export, aligned).**  `Export` takes the `Id` of what it sends from the document itself; whatever the stores
 do, what it sends is exactly the document list of `Search` (one per returned ID, in order - `c16_response_aligned`),
@@ -1003,9 +1034,11 @@ theorem c16_x_source_of_asked_host :
     searchHostReturns = ["return data, si.sourceByClient[host], nil"] := by decide
 
 /-- how the handlers pair IDs and documents: `makeProtoDocs` (Search / ComplexSearch) by position - `Id` from
-`qpr.IDs[i]`, `Data` from the i-th `docs.Next()` -, `Export` and `Fetch` by the document's own ID -/
+`qpr.IDs[i]`, `Data` from the i-th `docs.Next()` whose error is ignored, and nothing leaves the loop early: one
+Document per ID (`protoDocs`, `c16_api_lists_every_id`) -, `Export` and `Fetch` by the document's own ID -/
 theorem c16_x_pairing :
     protoDocsPairing = ["range qpr.IDs", "doc.Id = id.ID.String()", "d, _ := docs.Next()", "doc.Data = d.Data"] ∧
+    protoDocsLoopExits = [] ∧
     exportDocID = ["doc.ID.String()"] ∧ fetchDocID = ["doc.ID.String()"] := by decide
 
 /-- `Export` closes the stream of a partial result with a status error (what `c16_export_honest` is about).
